@@ -7,6 +7,9 @@ EXTENDS Props
 GhostInit(g) ==
     [supply0 |-> g.post.supply, reward0 |-> g.post.pool.reward, claimable0 |-> ClaimableMilli(g.post),
      claimedNode |-> 0, dustq |-> 0, dustr |-> 0, cfg |-> g.cfg, start |-> TRUE,
+     net |-> [i \in 1..Len(g.post.pledges) |->
+                [a |-> g.post.pledges[i].a,
+                 v |-> DebtOf(g.post, g.post.pledges[i].a) - SumSeq(CompletedShardsOf(g.post, g.post.pledges[i].a), LAMBDA sh : sh.pledge)]],
      grants |-> [i \in 1..Len(g.post.metas) |-> [data |-> g.post.metas[i].data, rw |-> g.post.metas[i].rw]],
      earn |-> [i \in 1..Len(g.post.workers) |->
                  LET w == g.post.workers[i]  m == MuAdd(MuOf(w.rew), MuOf(w.income * (g.post.h - w.last)))
@@ -34,7 +37,16 @@ GhostStep(g, x) ==
         gr2 == IF Kind(x) = "Permission" /\ Ok(x) /\ x.ev.sigmode = "ok" /\ x.ev.signer = x.ev.owner /\ HasMeta(x.pre, x.ev.data)
                   /\ MetaOf(x.pre, x.ev.data).owner = x.ev.signer
                THEN Put(gr1, "data", [data |-> x.ev.data, rw |-> x.ev.rw]) ELSE gr1
-    IN [g EXCEPT !.grants = gr2, !.earn = earn2, !.claimedNode = @ + (IF Kind(x) = "Claim" /\ Ok(x) THEN -Delta(x, "m_node") ELSE 0),
+        \* shard-collateral flows between providers and the node escrow, from bank deltas: every step except capacity
+        \* pledges (Add/RemoveVstorage), plain transfers and staking; in a Claim only the debt it repaid counts (as paid in)
+        accs == NodeAccs(x.pre) \cup NodeAccs(x.post)
+        netStep(acc, a) ==
+            LET d == IF Kind(x) \in {"AddVstorage", "RemoveVstorage", "Send", "Delegate", "Undelegate", "Redelegate", "PayAddr"} THEN 0
+                     ELSE IF Kind(x) = "Claim" THEN -(DebtOf(x.pre, a) - DebtOf(x.post, a))
+                     ELSE Delta(x, a)
+            IN IF d = 0 /\ ~Has(acc, "a", a) THEN acc ELSE Put(acc, "a", [a |-> a, v |-> NetOf([net |-> acc], a) + d])
+        net2 == FoldLeft(netStep, g.net, SetToSeq(accs))
+    IN [g EXCEPT !.net = net2, !.grants = gr2, !.earn = earn2, !.claimedNode = @ + (IF Kind(x) = "Claim" /\ Ok(x) THEN -Delta(x, "m_node") ELSE 0),
                  !.dustq = d2.q, !.dustr = d2.r, !.start = FALSE]
 
 \* ---------------------------------------------------------------------------
@@ -43,8 +55,8 @@ Names == <<
   "C04_ChargeExact", "C04_ClientEscrowClosed", "C04_RefundToPayerOnly", "C04_OrderEscrowExact", "C04_NoStuckPayment", "C04_IncomeIsBytesBlocks",
   "C05_FullRefund", "C05_CleanRollback", "C05_TimeoutRefund", "C05_TimeoutRollback",
   "C06_OrderEscrow", "C06_MarketEscrow", "C06_NodeEscrow", "C06_DidEscrow", "C06_EntitledNeverFails",
-  "C07_UsedWithinCap", "C07_ProviderEscrowClosed", "C07_PledgeBackToPledger",
-  "C08_MintedEqualsCounter", "C08_ClaimsWithinMinted", "C08_MintOnlyInBlocks", "C08_MintBound", "C08_ClaimExact",
+  "C07_UsedWithinCap", "C07_ProviderEscrowClosed", "C07_PledgeBackToPledger", "C07_CollateralLedger",
+  "C08_MintedEqualsCounter", "C08_ClaimsWithinMinted", "C08_ShareBaseIsPledgedCapacity", "C08_MintOnlyInBlocks", "C08_MintBound", "C08_ClaimExact",
   "C09_ModelChangeAuthorised", "C09_PermissionApplied",
   "C10_CompleteByAssignee", "C10_NodeSelfOnly", "C10_CancelByCreator", "C10_PayerConsent",
   "C11_KeptWhilePaid", "C11_ReleasedAtEnd", "C11_ModelOutlivesShards", "C11_NothingOverdue",
@@ -80,8 +92,10 @@ Verdict(name, x, g) ==
     [] name = "C07_UsedWithinCap"        -> V(TRUE, C07_UsedWithinCap(s))
     [] name = "C07_ProviderEscrowClosed" -> V(Closure_app(x), C07_ProviderEscrowClosed(x))
     [] name = "C07_PledgeBackToPledger"  -> V(Closure_app(x), C07_PledgeBackToPledger(x))
+    [] name = "C07_CollateralLedger"     -> V(Disjoint(x), C07_CollateralLedger(s, g))
     [] name = "C08_MintedEqualsCounter"  -> V(TRUE, C08_MintedEqualsCounter(s, g))
-    [] name = "C08_ClaimsWithinMinted"   -> V(s.inexact = <<>>, C08_ClaimsWithinMinted(s, g))
+    [] name = "C08_ClaimsWithinMinted"   -> V(TRUE, C08_ClaimsWithinMinted(s, g))
+    [] name = "C08_ShareBaseIsPledgedCapacity" -> V(TRUE, C08_ShareBaseIsPledgedCapacity(s))
     [] name = "C08_MintOnlyInBlocks"     -> V(IsTx(x), C08_MintOnlyInBlocks(x))
     [] name = "C08_MintBound"            -> V(C08_MintBound_app(x), C08_MintBound(x, g.cfg))
     [] name = "C08_ClaimExact"           -> V(C08_ClaimExact_app(x), C08_ClaimExact(x))
